@@ -9,7 +9,8 @@ A *case* is a jsonable dict describing one call of `draw()`:
            seek (current frame of the renderable)
   old API  style 'block'|'kitty'|'iterm2', ident, method 'lines'|'whole'|None, fmt (h_align, pad_width,
            v_align, pad_height), repeat, cached, check_size, scroll, src 'pil'|'file', dyn (dynamic size),
-           cell (pixel size of a cell), compress
+           cell (pixel size of a cell), compress, style_kw (other style-specific draw() parameters:
+           z_index / mix / compress)
   C07      buffering 'none'|'full'|'line' (delivery discipline of the virtual stdout, see world.VStdout)
   history  term0 (terminal size at the start), pre: steps executed before the judged draw in the same world on
            the same object - {"op": "draw", "kw": {overrides}} | {"op": "resize", "term": (c, r)} |
@@ -147,6 +148,7 @@ def old_style_args(case):
         kw["method"] = case["method"]
     if case.get("compress") is not None:
         kw["compress"] = case["compress"]
+    kw.update(case.get("style_kw") or {})     # further style-specific draw() parameters: z_index, mix, compress
     return kw
 
 
@@ -347,7 +349,8 @@ def _inner_key(case, k):
         return ("new", case.get("mode", "plain"), tuple(case["size"]), k)
     return ("old", case["style"], case.get("ident", "other"), case.get("method"), tuple(case["size"]),
             tuple(case.get("srcsize") or ()), case["frames"], k, tuple(case.get("cell") or CELL), case.get("compress"),
-            bool(case["frames"] > 1 and case.get("animate", True)))
+            bool(case["frames"] > 1 and case.get("animate", True)),
+            tuple(sorted((case.get("style_kw") or {}).items())))
 
 
 def inner_frame(case, k):
@@ -370,11 +373,15 @@ def inner_frame(case, k):
         style = case["style"]
         animation = case["frames"] > 1 and case.get("animate", True)
         if style != "block":
+            skw = case.get("style_kw") or {}
             spec += "+" + {"lines": "L", "whole": "W", None: ""}[case.get("method")]
-            if style == "iterm2" and animation:
+            if style == "kitty" and skw.get("z_index") is not None and not animation:
+                spec += f"z{skw['z_index']}"      # (an animation uses a z-index of its own)
+            if style == "iterm2" and animation or skw.get("mix"):
                 spec += "m1"
-            if case.get("compress") is not None:
-                spec += f"c{case['compress']}"
+            compress = skw.get("compress", case.get("compress"))
+            if compress is not None:
+                spec += f"c{compress}"
             if spec.endswith("+"):
                 spec = spec[:-1]
         out = format(img, spec)
@@ -455,9 +462,11 @@ def judge_screen(run, exp, k, bad, *, final, scrolls_expected):
                 elif cell.tag != "S":
                     bad("outside-shifted", f"cell {(r, c)} on a scrolled-in row is {cell}")
                     return False
-    # (the z-index is not compared: kitty animations use one that the public format spec cannot express)
-    got = sorted((p.proto, p.row - top, p.col, p.cols, p.rows, p.digest) for p in term.placements)
-    want = sorted((p.proto, p.row, p.col, p.cols, p.rows, p.digest) for p in ref.placements
+    # (the z-index of an animation is not compared: kitty animations use one that the public format spec
+    # cannot express; leftovers of earlier frames show up as additional placements whatever their z-index)
+    zcmp = not exp.animation
+    got = sorted((p.proto, p.row - top, p.col, p.cols, p.rows, p.digest, p.z if zcmp else 0) for p in term.placements)
+    want = sorted((p.proto, p.row, p.col, p.cols, p.rows, p.digest, p.z if zcmp else 0) for p in ref.placements
                   if p.row + p.rows + top > 0)
     if got != want:
         bad("region-placements", f"graphics on screen (rows relative to the region) {got} != frame {k} drawn "
